@@ -85,7 +85,8 @@ pub fn stages(id: &str) -> Vec<Stage> {
             st(C07 { params: Params { max_pkgs: 20, min_pkgs: 8, ..Params::default() }, stage: "large" }, 5_000, 200_000, Release),
         ],
         "C08" => vec![
-            st(C08 { params: Params::conflict_heavy(), stage: "main" }, 20_000, 800_000, Release),
+            st(C08 { params: Params::conflict_heavy(), stage: "main", constructed: false }, 20_000, 800_000, Release),
+            st(C08 { params: Params { max_pkgs: 10, min_pkgs: 4, max_cands: 5, ..Params::default() }, stage: "constructed", constructed: true }, 15_000, 600_000, Release),
         ],
         "C09" => vec![
             st(C09 { params: Params::conflict_heavy().with_soft(2, 100), stage: "general", conflict_free: false }, 15_000, 600_000, Release),
